@@ -24,6 +24,7 @@ def main():
             {"harness": "c17a-backlog", "budget_s": 30, "label": "RedialPacketConn with a congested carrier: one packet in flight, then the user writes queueSize-1 / +0 / +1 / +50 more (send queue full, packets dropped), then the congested write fails while the read side stays blocked: redial, every carrier closed, no goroutine left"},
             {"harness": "c17b-seq", "cfg": {"depth": "5"}, "budget_s": 20, "label": "QueuePacketConn, all sequences of 5 operations over {QueueIncoming a/b, ReadFrom, WriteTo a/b, recv OutgoingQueue a/b, Close} with buffer scribbling, against a FIFO reference"},
             {"harness": "c17b-overflow", "budget_s": 10, "label": "QueuePacketConn, queueSize+5 packets each way: overflow dropped, order kept, nothing blocks"},
+            {"harness": "c17b-full", "cfg": {"maxproducers": "2"}, "budget_s": 30, "label": "QueuePacketConn, 2 concurrent producers (QueueIncoming / WriteTo) meeting a queue with 0/1/2 free slots that nobody drains (optionally closed afterwards): every call returns, order kept, exactly the free slots are taken: " + U},
             {"harness": "c17b-conc", "budget_s": 30, "label": "QueuePacketConn, 2 feeders + reader + writer (+ closer): " + U},
             {"harness": "c17c-sweeper", "budget_s": 10, "label": "ClientMap with its real sweeper on virtual time: first seen at {0,T/4,T/2,T/2-1,3T/4} x refresh {none,T/2,T-1,T/2+1,2ns,0.5s,0.999s,T/4}: present with contents at idle T-1ns, discarded and closed by 1.5T"},
         ]
@@ -38,6 +39,7 @@ def main():
             {"harness": "c17a-backlog", "budget_s": 200, "label": "RedialPacketConn with a congested carrier and a full send queue"},
             {"harness": "c17b-seq", "cfg": {"depth": "6"}, "budget_s": 120, "label": "QueuePacketConn, all sequences of 6 operations, against a FIFO reference"},
             {"harness": "c17b-overflow", "budget_s": 10, "label": "QueuePacketConn overflow"},
+            {"harness": "c17b-full", "cfg": {"maxproducers": "3"}, "budget_s": 120, "label": "QueuePacketConn, 2-3 concurrent producers meeting an almost full queue: " + U},
             {"harness": "c17b-conc", "budget_s": 60, "label": "QueuePacketConn, 2 feeders + reader + writer (+ closer): " + U},
             {"harness": "c17c-sweeper", "budget_s": 10, "label": "ClientMap with its real sweeper on virtual time"},
         ]
